@@ -24,14 +24,35 @@ import (
 	ad "github.com/pbenner/autodiff"
 )
 
+// jetEq: two reads of the same element agree (NaN = NaN: both reads come from the library).
 func jetEq(a, b jet, varM bool) bool {
 	if !sameClass(a.v, b.v) {
 		return false
 	}
-	return !varM || (derivEq(a.d, b.d) && derivEq(a.h, b.h))
+	return !varM || (sliceSame(a.d, b.d) && sliceSame(a.h, b.h))
+}
+
+func sliceSame(a, b []float64) bool {
+	n := max(len(a), len(b))
+	for i := 0; i < n; i++ {
+		var x, y float64
+		if i < len(a) {
+			x = a[i]
+		}
+		if i < len(b) {
+			y = b[i]
+		}
+		if !sameClass(x, y) {
+			return false
+		}
+	}
+	return true
 }
 
 func jetNonzero(a jet) bool { return a.v != 0 || !allZero(a.d) || !allZero(a.h) }
+
+// viewsDone counts the result containers whose three further reads were completed.
+var viewsDone int64
 
 func (o *obs) setView(kind string, p int, msg string) {
 	if o.view == "" {
@@ -101,6 +122,7 @@ func (o *obs) viewVec(v ad.ConstVector, n int, varM bool) {
 		o.setView("equals-as-operand", -1, fmt.Sprintf("d.Equals(result) is false for the dense vector d = %v built from the result's ConstAt values", d))
 		return
 	}
+	viewsDone++
 }
 
 func (o *obs) viewMat(m ad.ConstMatrix, r, c int, n int, varM bool) {
@@ -165,4 +187,5 @@ func (o *obs) viewMat(m ad.ConstMatrix, r, c int, n int, varM bool) {
 		o.setView("equals-as-operand", -1, "d.Equals(result) is false for the dense matrix d built from the result's ConstAt values")
 		return
 	}
+	viewsDone++
 }
